@@ -13,10 +13,11 @@
 //@@ props ^NoFinishHook : C08
 //@@ props ^is_empty_range$|^common_prefix_len$|^common_suffix_len$ : C01
 //@@ props ^deadline_exceeded$ : C07
-//@@ props ^myers:: : C01 C07 C08
-//@@ props ^lcs:: : C01 C07 C08
+//@@ props ^myers:: : C01 C03 C07 C08
+//@@ props ^lcs:: : C01 C03 C07 C08
 //@@ props ^patience:: : C01 C07 C08
 //@@ props ^unique$|^UniqueItem|^PartialEq for UniqueItem : C01
 //@@ props ^Replace::|^DiffHook for Replace:: : C01 C08
-//@@ props ^diff$|^diff_deadline$|^diff_slices$|^diff_slices_deadline$ : C01 C07 C08
+//@@ props ^diff$|^diff_deadline$|^diff_slices$|^diff_slices_deadline$ : C01 C03 C07 C08
+//@@ props ^lemma_lcs_ : C03
 fn main() {}
